@@ -681,8 +681,10 @@ class SequenceEncoder(AbstractItemEncoder):
                             valueObject, namedType, encodeFun, options):
                         continue
 
-                if namedType.isDefaulted and self._isDefault(
-                        component, namedType, encodeFun, options):
+                if (namedType.isDefaulted and
+                        isinstance(component, base.Asn1Item) and
+                        self._isDefault(
+                            component, namedType, encodeFun, options)):
                     if LOG:
                         LOG('not encoding DEFAULT component %r' % (namedType,))
                     continue
